@@ -86,13 +86,13 @@ func Step(unix int64, period uint64) uint64 {
 
 // OCRASuite is the reference notion of a suite.
 type OCRASuite struct {
-	Text      string // the suite text that is fed to the HMAC
-	Hash      int
-	Digits    int
+	Text          string // the suite text that is fed to the HMAC
+	Hash          int
+	Digits        int
 	C, Q, P, S, T bool
-	QFormat   int // 0 none, 1 N08, 2 N10, 3 A08, 4 A10, 5 H08, 6 H10
-	PHash     int // 0 none, 1 SHA1, 2 SHA256, 3 SHA512
-	TimeStep  int // seconds
+	QFormat       int // 0 none, 1 N08, 2 N10, 3 A08, 4 A10, 5 H08, 6 H10
+	PHash         int // 0 none, 1 SHA1, 2 SHA256, 3 SHA512
+	TimeStep      int // seconds
 }
 
 // OCRAIn is the reference notion of an input.
